@@ -173,7 +173,7 @@ class Facts:
             from . import canon
             # P1: items that merely moved / were renamed are analysed under their reference path
             amap = canon.alias_map(self.crate,
-                                   {f.path: ([f.locals[i].get("t") for i in range(1, f.argc + 1)], f.locals[0]["t"], f.kind)
+                                   {f.path: ([f.locals[i].get("t") for i in range(1, f.argc + 1)], f.locals[0]["t"], f.kind, canon.literal_fingerprint(f.rec))
                                     for f in self.fn_list if f.kind != "const"},
                                    {p: (a.get("kind"), [x["name"] for x in (a.get("fields") if "fields" in a else a.get("variants", []))])
                                     for p, a in self.adts.items() if a.get("file")},
